@@ -147,6 +147,7 @@ func GenProg(r *Rng, cfg ProgCfg) *Prog {
 		p.EarlyMode = 1 + r.Intn(3)
 	}
 	p.LateUnknown = r.Chance(1, 6)
+	p.LateMapLower = p.MapLower && (p.LateMode || p.LateUnknown)
 	p.LateReqOrder = p.ReqOrder && r.Chance(1, 4)
 	if cfg.Help && r.Chance(2, 3) {
 		p.Help = "help"
